@@ -49,8 +49,8 @@ PROFILES = {
             (2, _p(world="local", kinds=MF, p_fault_free=0.0, p_async_stop=0.0)),
             (1, _p(world="mem", kinds=["hb_stopping_bo", "hb_promotion_bo", "hb_hypertune", "sync_hb_bo", "fifo_bo"], p_fault_free=0.0,
                    fault_kinds=["crash"], max_trials=10, p_nodelay_false=0.05)), ],
-    "C17": [(6, _p(world="mem", kinds=MF, p_extra=0.7, p_callback_raise=0.1, p_payload=0.3)),
-            (2, _p(world="local", kinds=MF, p_extra=0.7, p_callback_raise=0.1, p_payload=0.3, p_async_stop=0.0)),
+    "C17": [(6, _p(world="mem", kinds=MF, p_extra=0.7, p_callback_raise=0.1, p_payload=0.3, p_late_key=0.3)),
+            (2, _p(world="local", kinds=MF, p_extra=0.7, p_callback_raise=0.1, p_payload=0.3, p_async_stop=0.0, p_late_key=0.3)),
             (2, _p(world="sim", kinds=MF_SIM, fault_kinds=["crash"])), ],
 }
 
@@ -106,10 +106,10 @@ PROFILES["C16"] = [
            p_fault_free=0.4, fault_kinds=["crash"], p_nodelay_false=0.0, max_trials=8, p_latency=0.3, p_tiny_space=0.4, p_pte=0.6,
            p_early_removal=0.0, p_allow_dup=0.3, p_restrict=0.2)),
     (2, _p(world="mem", kinds=["fifo_bo", "hb_promotion_bo", "hb_stopping_bo"], p_fault_free=0.7, fault_kinds=["crash"], p_nodelay_false=0.0,
-           max_trials=6, p_restrict=0.5, p_tiny_space=0.5, p_pte=0.5)),
+           max_trials=6, p_restrict=0.5, p_tiny_space=0.5, p_pte=0.5, gp_skip_period=True)),
     # GP searchers on enumerable spaces with restrict_configurations (the list shrinks as configurations are used)
     (2, _p(world="mem", kinds=["fifo_bo", "hb_promotion_bo", "hb_stopping_bo"], p_fault_free=0.7, fault_kinds=["crash"], p_nodelay_false=0.0,
-           max_trials=6, p_restrict=1.0, p_tiny_space=1.0, simple_finite=True, p_pte=0.5)),
+           max_trials=6, p_restrict=1.0, p_tiny_space=1.0, simple_finite=True, p_pte=0.5, gp_skip_period=True)),
     # searcher options off the default path: duplicates allowed (failed configurations stay blacklisted), tiny finite spaces, failures
     (2, _p(world="mem", kinds=["fifo_random", "hb_stopping", "hb_promotion", "median", "sync_hb"], p_fault_free=0.0, fault_kinds=["crash"],
            p_nodelay_false=0.0, max_trials=14, p_tiny_space=1.0, p_allow_dup=1.0, p_early_removal=0.0, p_pte=0.3)),
